@@ -660,7 +660,7 @@ func ruleChildCompiled(p *Program, r *Reporter) {
 						return
 					}
 					if ret, ok := terminator(bl).(*ssa.Return); ok {
-						if isSuccessReturn(ret) {
+						if isSuccessReturn(ret) || mayBeSuccessReturn(ret) {
 							bad = ret.Pos()
 						}
 						return
@@ -1287,6 +1287,96 @@ func ruleReflectKind(p *Program, r *Reporter) {
 	if n == 0 {
 		r.Undecided("reflection accessors", "-", "no kind-sensitive reflect.Value call found in package vm")
 	}
+	// A value that was replaced by what it contains (Elem(): the inside of an
+	// interface or pointer — which may be nothing, the zero Value) has to be
+	// looked at again before a method that panics on the zero Value is called
+	// on it: CanInterface(), Interface(), Type().
+	for _, fn := range fns {
+		nth := 0
+		for _, b := range fn.Blocks {
+			for _, ins := range b.Instrs {
+				c, ok := ins.(*ssa.Call)
+				if !ok || c.Call.StaticCallee() == nil || len(c.Call.Args) == 0 {
+					continue
+				}
+				switch c.Call.StaticCallee().String() {
+				case "(reflect.Value).CanInterface", "(reflect.Value).Interface", "(reflect.Value).Type":
+				default:
+					continue
+				}
+				v := c.Call.Args[0]
+				// only values that (on some path) are the result of Elem()
+				fromElem := false
+				var look func(x ssa.Value, depth int)
+				seen := map[ssa.Value]bool{}
+				look = func(x ssa.Value, depth int) {
+					if depth > 6 || seen[x] {
+						return
+					}
+					seen[x] = true
+					switch y := x.(type) {
+					case *ssa.Phi:
+						for _, e := range y.Edges {
+							look(e, depth+1)
+						}
+					case *ssa.Call:
+						if cal := y.Call.StaticCallee(); cal != nil && cal.String() == "(reflect.Value).Elem" {
+							fromElem = true
+						}
+					}
+				}
+				look(v, 0)
+				if !fromElem {
+					continue
+				}
+				nth++
+				key := fmt.Sprintf("%s/%s() %d on a value taken out of an interface is reached only when there was something inside", p.FnName(fn), c.Call.StaticCallee().Name(), nth)
+				// validated: on the valid side of IsValid(v), or behind a successful
+				// comparison of v's kind with a constant
+				valid := false
+				for cur := b; cur != nil && cur.Idom() != nil; cur = cur.Idom() {
+					d := cur.Idom()
+					iff, isIf := terminator(d).(*ssa.If)
+					if !isIf || len(d.Succs) != 2 {
+						continue
+					}
+					onTrue := (d.Succs[0] == b || d.Succs[0].Dominates(b)) && len(d.Succs[0].Preds) == 1
+					onFalse := (d.Succs[1] == b || d.Succs[1].Dominates(b)) && len(d.Succs[1].Preds) == 1
+					cond, neg := iff.Cond, false
+					if u, isU := cond.(*ssa.UnOp); isU && u.Op == token.NOT {
+						cond, neg = u.X, true
+					}
+					switch x := cond.(type) {
+					case *ssa.Call:
+						if cal := x.Call.StaticCallee(); cal != nil && cal.String() == "(reflect.Value).IsValid" && x.Call.Args[0] == v {
+							if (!neg && onTrue) || (neg && onFalse) {
+								valid = true
+							}
+						}
+					case *ssa.BinOp:
+						if x.Op == token.EQL && !neg && onTrue {
+							for _, side := range []ssa.Value{x.X, x.Y} {
+								if kc, isC := side.(*ssa.Call); isC && kc.Call.StaticCallee() != nil && kc.Call.StaticCallee().String() == "(reflect.Value).Kind" && kc.Call.Args[0] == v {
+									other := x.Y
+									if side == x.Y {
+										other = x.X
+									}
+									if k, isK := constInt(other); isK && k != 0 {
+										valid = true
+									}
+								}
+							}
+						}
+					}
+				}
+				if valid {
+					r.OkNT(key, p.Pos(c.Pos()), "behind IsValid() or a successful test of its kind")
+				} else {
+					r.Fail(key, p.Pos(c.Pos()), c.Call.StaticCallee().Name()+"() is called on a value that was, on some path, replaced by its Elem() and not looked at again: the inside of a nil interface — a JSON null as the value of a nested object — is the zero Value, on which this method panics, and the panic aborts the conversion of the whole object (every field of such a document becomes unreadable)")
+				}
+			}
+		}
+	}
 }
 
 // entryKinds: when v is a parameter, the kinds established at every call site.
@@ -1375,6 +1465,29 @@ func fromValueOf(v ssa.Value, depth int) bool {
 		case "(reflect.Value).MapKeys", "(reflect.Value).Index", "(reflect.Value).MapIndex", "(reflect.Value).Elem":
 			return fromValueOf(x.Call.Args[0], depth+1)
 		}
+	}
+	return false
+}
+
+// mayBeSuccessReturn: the error returned is the result of a call that has not
+// been found non-nil on the way here (`return e.compile(node.Condition)`): the
+// function succeeds whenever that call does.
+func mayBeSuccessReturn(ret *ssa.Return) bool {
+	fn := ret.Parent()
+	rs := fn.Signature.Results()
+	for i := rs.Len() - 1; i >= 0; i-- {
+		if !isErrorType(rs.At(i).Type()) {
+			continue
+		}
+		if i >= len(ret.Results) {
+			return false
+		}
+		v := ret.Results[i]
+		switch v.(type) {
+		case *ssa.Call, *ssa.Extract:
+			return !nonNilAt(v, ret)
+		}
+		return false
 	}
 	return false
 }
